@@ -46,6 +46,7 @@ func propC02(c *Ctx) {
 	c.ruleDTOFieldsFilled("C02-DTO-FIELDS-FILLED")
 	c.ruleParamNotGated("C02-PARAM-NOT-GATED")
 	c.ruleWalkEveryContainer("C02-WALK-EVERY-CONTAINER")
+	c.ruleWalkResultDiscarded("C02-WALK-RESULT-DISCARDED")
 	c.rulePlaceWhenComplete("C02-PLACE-WHEN-COMPLETE")
 	c.ruleLoopsCoverAll("C02-LOOPS-COVER-ALL")
 	if m := c.E1Base(); m != nil {
@@ -624,6 +625,8 @@ func propC05(c *Ctx) {
 	c.ruleIDSourcesVerbatim("C05-ID-SOURCES-VERBATIM")
 	c.ruleBorrowedSliceReadOnly("C05-BORROWED-SLICE-READ-ONLY") // the tag lists of an interaction are inserted into, not written over
 	c.ruleLoopFlags("C05-LOOP-FLAG")
+	c.ruleInsertAliasing("C05-INSERT-ALIASING")
+	c.ruleGroupAppendTotal("C05-GROUP-APPEND-TOTAL")
 }
 
 // ruleUpdateKeepsEntry: an entry of a catalog collection accumulates its cross-references (a tag its interaction
